@@ -29,6 +29,8 @@ def units(tier, seed):
         out.append({"stage": "chain", "p": p})
     if tier == "quick":
         out += [{"stage": "dagI", "p": 5, "codes": c} for c in split_list(_g.sparse_codes(5, 3, (1, 2)), 16)]
+        # every 128th of the 29,281 5-node DAGs (dense ones included, where Meek rules 3 and 4 fire) x all 32 target sets: a fixed stride
+        out += [{"stage": "dagI", "p": 5, "codes": c, "nochain": True} for c in split_list(G.dag_codes(5)[::128], 16)]
     else:
         out += _g.dag_units("dagI", 5, 256)
         out += [{"stage": "pdagI", "p": 5, "codes": c} for c in split_list(_g.sparse_codes(5, 4, (1, 2, 3)), 32)]
@@ -146,7 +148,7 @@ def run_unit(unit):
             for m in masks:
                 targets = G.bits(m)
                 for lab in labs_here:
-                    fails, ncls, nicl, ncalls = check_dag_I(p, ch, lab, targets)
+                    fails, ncls, nicl, ncalls = check_dag_I(p, ch, lab, targets, chain_too=not unit.get("nochain") and not (p == 4 and lab != "bin"))
                     acc.states += 1
                     acc.transitions += ncalls
                     acc.traces += 1
@@ -194,7 +196,7 @@ def describe(tier, seed):
     return {
         "technique": "exhaustive enumeration of (DAG, target set) pairs on the real code vs brute-force class filtered by the targets' parent sets",
         "rule": "imec (with/without chain shortcut) and dag_to_icpdag for every labelled DAG x every subset I: p<=4 under 3 weight labelings (+ every +-1 sign assignment at p<=3; wide 10-node graphs with <=2 edges and targeted colliders x selected I) "
-                "(+ 5-node DAGs with <=3 edges quick; all 29,281 x 32 pairs at p=5 thorough); chains to p=7 (quick) / 10 (thorough) x all I; "
+                "(+ 5-node DAGs with <=3 edges and every 128th 5-node DAG quick; all 29,281 x 32 pairs at p=5 thorough); chains to p=7 (quick) / 10 (thorough) x all I; "
                 "pdag_to_icpdag for every PDAG x I (p<=4; sparse p=5 thorough): ValueError iff a target has an undirected edge or no extension, "
                 "else the union graph of the I-class; non-trivial: class size > 1 and I a proper non-empty subset",
         "exhaustive": True,
